@@ -7,7 +7,7 @@ from . import core
 from .c13 import summary_of
 
 
-def gen_replay(run, module, cfg, test, name, env=None, workers=12, heap="8g", simulate=None, depth=None, tag="CASE", dedupe=False, timeout=3000, memlimit_gb=None):
+def gen_replay(run, module, cfg, test, name, env=None, workers=12, heap="8g", simulate=None, depth=None, tag="CASE", dedupe=False, timeout=3000, memlimit_gb=None, confirm_case=None):
     r = run.tlc_must_pass(module, cfg, workers=workers, heap=heap, timeout=timeout, name=name, simulate=simulate, depth=depth)
     cases = os.path.join(run.work, "%s_cases.ndjson" % name)
     recs = core.parse_cases(r["out"], tag=tag)
@@ -23,6 +23,8 @@ def gen_replay(run, module, cfg, test, name, env=None, workers=12, heap="8g", si
     viol, samples, summary = summary_of(outp)
     if summary is None:
         raise core.Inconclusive("driver %s did not finish" % test)
+    if confirm_case is not None:
+        viol = run.confirm(run._binary, test, env or {}, viol, name, case_of=confirm_case)
     for v in viol:
         run.violation(v)
     for s in samples[:2]:
